@@ -4,7 +4,6 @@ import (
 	"fmt"
 
 	"github.com/Oneledger/protocol/action"
-	"github.com/Oneledger/protocol/data/balance"
 	"github.com/Oneledger/protocol/data/governance"
 
 	"verif/harness"
@@ -209,10 +208,11 @@ func governanceScenarios() []*harness.Scenario {
 		func(w *harness.World, id governance.ProposalID) *harness.TxSpec {
 			return ProposalWithdrawFunds(id, w.Users[1], olt(20), w.Users[2].Addr, "withdrawB-partial")
 		}, 1))
-	// funding deadline 6 missed with 60 < 100 OLT: the first withdrawal (height 7) moves the proposal to
-	// failed/INSUFFICIENT_FUNDS
+	// funding deadline 6 missed with 60 < 100 OLT: the first withdrawal moves the proposal to
+	// failed/INSUFFICIENT_FUNDS. DeliverTx would accept it at height 7, but CheckTx evaluates the rule
+	// against the header of the previous block, so the earliest admissible block is height 8.
 	add(govScenario(action.PROPOSAL_WITHDRAW_FUNDS, "withdraw-after-funding-deadline-missed", tGeneral, "", stFundC,
-		func(w *harness.World, id governance.ProposalID) []harness.BlockSpec { return empty(2) },
+		func(w *harness.World, id governance.ProposalID) []harness.BlockSpec { return empty(3) },
 		func(w *harness.World, id governance.ProposalID) *harness.TxSpec {
 			B := w.Users[1]
 			return ProposalWithdrawFunds(id, B, olt(50), B.Addr, "withdrawB")
@@ -221,7 +221,7 @@ func governanceScenarios() []*harness.Scenario {
 	add(govScenario(action.PROPOSAL_WITHDRAW_FUNDS, "withdraw-proposer-after-insufficient-funds", tGeneral, "", stFundC,
 		func(w *harness.World, id governance.ProposalID) []harness.BlockSpec {
 			B := w.Users[1]
-			return append(empty(2), blk(ProposalWithdrawFunds(id, B, olt(50), B.Addr, "withdrawB")))
+			return append(empty(3), blk(ProposalWithdrawFunds(id, B, olt(50), B.Addr, "withdrawB")))
 		},
 		func(w *harness.World, id governance.ProposalID) *harness.TxSpec {
 			A := w.Users[0]
@@ -304,12 +304,14 @@ func onsScenarios() []*harness.Scenario {
 	}
 	withA := func(life int64, more ...func(w *harness.World) *harness.TxSpec) func(w *harness.World) []harness.BlockSpec {
 		return func(w *harness.World) []harness.BlockSpec {
-			p := []harness.BlockSpec{blk(createA(w, life, "create-a"))}
+			// CheckTx runs against the header of the PREVIOUS block, and a domain is only changeable
+			// one block after its last change: every change is followed by a spare block
+			p := []harness.BlockSpec{blk(createA(w, life, "create-a")), {}}
 			for _, m := range more {
 				if m == nil {
 					p = append(p, harness.BlockSpec{})
 				} else {
-					p = append(p, blk(m(w)))
+					p = append(p, blk(m(w)), harness.BlockSpec{})
 				}
 			}
 			return p
@@ -363,7 +365,7 @@ func onsScenarios() []*harness.Scenario {
 			return DomainPurchase(B, w.Users[2].Addr, "a.ol", olt(50), "purchase")
 		}, 1))
 	// a.ol lives 2 blocks; four blocks later a stranger buys the expired name on the base-price path
-	add(onsScenario(action.DOMAIN_PURCHASE, "purchase-expired-by-stranger", withA(2, nil, nil, nil, nil),
+	add(onsScenario(action.DOMAIN_PURCHASE, "purchase-expired-by-stranger", withA(2, nil, nil, nil),
 		func(w *harness.World) *harness.TxSpec {
 			C := w.Users[2]
 			return DomainPurchase(C, C.Addr, "a.ol", olt(15), "purchase-expired")
@@ -373,7 +375,7 @@ func onsScenarios() []*harness.Scenario {
 	add(onsScenario(action.DOMAIN_SEND, "send-to-domain",
 		func(w *harness.World) []harness.BlockSpec {
 			A := w.Users[0]
-			return []harness.BlockSpec{blk(DomainCreate(A, w.Users[1].Addr, "a.ol", "", olt(30), "create-a"))}
+			return []harness.BlockSpec{blk(DomainCreate(A, w.Users[1].Addr, "a.ol", "", olt(30), "create-a")), {}}
 		},
 		func(w *harness.World) *harness.TxSpec { return DomainSend(w.Users[2], "a.ol", olt(7), "send") }, 1))
 	add(onsScenario(action.DOMAIN_SEND, "send-to-subdomain", withA(20, subB),
@@ -436,4 +438,3 @@ func Scenarios() []*harness.Scenario {
 	return out
 }
 
-var _ = balance.NewAmount
